@@ -790,13 +790,61 @@ def verifystrict(ctx):
     E = Effects(crate)
     n = 0
     from flow import result_exits
+    import re as _re
     for p, f in sorted(crate.fns.items()):
-        is_verify = strip_generics(p).endswith("::verify")
+        base_p = _re.sub(r"(::\{closure#\d+\})+$", "", strip_generics(p))
+        is_verify = base_p.endswith("::verify")
         is_matrix = strip_generics(p).endswith("matrix_connector::MatrixConnector::from_reader")
         if not f.body or f.krate != "vibrato" or not (is_verify or is_matrix):
             continue
         fa = E.fa(p)
         S = Sym(E, fa)
+        # a predicate written as a value (`id < count && ..` in a closure handed to all(), or the
+        # last expression of a helper): the comparison's result is what is returned
+        for vb, vi, vs in fa.stmts():
+            rv = vs.get("rv")
+            if not rv or rv["k"] != "binop" or rv["op"] not in ("Lt", "Le", "Gt", "Ge") or vs["lhs"]["p"]:
+                continue
+            # not consumed by a switch of its own (directly or through a plain copy)
+            copies = {vs["lhs"]["l"]}
+            for _ in range(3):
+                for cb, ci, cs in fa.stmts():
+                    if "lhs" in cs and not cs["lhs"]["p"] and cs["rv"]["k"] == "use":
+                        sp = op_place(cs["rv"]["op"])
+                        if sp is not None and not sp["p"] and sp["l"] in copies and \
+                                len(fa.defs().get(cs["lhs"]["l"], [])) == 1:
+                            copies.add(cs["lhs"]["l"])
+            used_by_switch = False
+            for x in fa.live_blocks():
+                tx = fa.term(x)
+                if tx["k"] == "switch":
+                    sp = op_place(tx["op"])
+                    if sp is not None and not sp["p"] and sp["l"] in copies:
+                        used_by_switch = True
+            if used_by_switch:
+                continue
+            e = ("binop", rv["op"], S.operand(rv["a"]), S.operand(rv["b"]))
+            (lt, lc), (rt, rc) = _lin(e[2]), _lin(e[3])
+
+            def is_cnt(txt):
+                return "num_left(" in txt or "num_right(" in txt
+            if is_cnt(lt) == is_cnt(rt):
+                continue
+            cnt_left = is_cnt(lt)
+            # the value `true` is the accepting outcome: out of range  <=>  NOT(expr)
+            neg = {"Lt": "Ge", "Le": "Gt", "Gt": "Le", "Ge": "Lt"}[rv["op"]]
+            if cnt_left:      # NOT(count OP id)  ->  count NEG id  ->  count - id NEG rc - lc
+                kk = rc - lc if neg == "Le" else rc - lc - 1 if neg == "Lt" else None
+            else:             # NOT(id OP count)  ->  id NEG count  ->  count - id NEG' lc - rc
+                kk = lc - rc if neg == "Ge" else lc - rc - 1 if neg == "Gt" else None
+            n += 1
+            ok = kk == 0
+            ctx.ob("VERIFYSTRICT", "%s|value-cmp|%s" % (base_p, "left" if "num_left(" in lt + rt else "right"),
+                   ok, fa.loc(vb, vi),
+                   "%s accepts an id exactly when count - id >= 1" % "::".join(base_p.split("::")[-2:]) if ok else
+                   "%s treats an id as in range unless count - id <= %s (%s %s %s): the first id outside "
+                   "the connector is accepted and indexes one past the tables during tokenization"
+                   % ("::".join(base_p.split("::")[-2:]), kk, show(e[2]), rv["op"], show(e[3])))
         # blocks that make the function return false (verify) / construct the Err (matrix parser)
         false_blocks = set()
         if is_matrix:
@@ -804,8 +852,17 @@ def verifystrict(ctx):
             for b, t in fa.calls():
                 if "invalid_format" in " ".join(callee_paths(t)) and not (fa.reachable(b) & ok_b):
                     false_blocks.add(b)
+        # locals whose value is moved into the return place (after helper expansion the helper's
+        # own return slot is one of them)
+        retflow = {0}
+        for _ in range(4):
+            for b, i, s in fa.stmts():
+                if "lhs" in s and not s["lhs"]["p"] and s["lhs"]["l"] in retflow and s["rv"]["k"] == "use":
+                    sp_ = op_place(s["rv"]["op"])
+                    if sp_ is not None and not sp_["p"]:
+                        retflow.add(sp_["l"])
         for b, i, s in fa.stmts():
-            if "lhs" in s and s["lhs"]["l"] == 0 and not s["lhs"]["p"] and s["rv"]["k"] == "use":
+            if "lhs" in s and s["lhs"]["l"] in retflow and not s["lhs"]["p"] and s["rv"]["k"] == "use":
                 k = op_const(s["rv"]["op"])
                 if k is not None and k.get("int") == 0:
                     false_blocks.add(b)
